@@ -3,7 +3,7 @@ TARGET = dict(
           "macropixel 1/2/3/6, 1-4 planes, hsub/vsub 1/2/4, macropixel_size 1-16) x two managers (ubuf_pic_mem_mgr_alloc / ubuf_mem_mgr_alloc_from_flow_def / alloc_fourcc; "
           "hm/v prepend/append 0-16 incl. odd, align 0/1/16/32/64, align offset -8..8, pool 0/2) x <=40 operations over <=4 handles: alloc (sizes multiple and not multiple of the "
           "granularity), plane_read/plane_write windows (boundary-biased offsets incl. negative, below -size, beyond the end, misaligned; sizes incl. -1), ubuf_pic_resize (crop, extend into "
-          "margins, beyond margins, misaligned), dup, ubuf_pic_copy/replace to either manager, ubuf_split_fields (row j of field f is line 2j+f of the picture, at its address), fill, free; after every operation every handle/plane: full window mapped, every row inside the "
+          "margins, beyond margins, misaligned), dup, ubuf_pic_copy/replace to either manager, ubuf_split_fields (row j of field f is line 2j+f of the picture, at its address), ubuf_block_mem_alloc_from_pic (the block spans exactly first to last visible pixel of the plane), fill, free; after every operation every handle/plane: full window mapped, every row inside the "
           "exact umem area, ownership stamps (no two positions share an octet), content equal to the model of still-visible pixels. "
           "ubuf_pic_plane_clear / ubuf_pic_plane_set_color (one-octet and macropixel-sized patterns) on in-domain windows of single-owner pictures: every octet outside the window keeps its value, nothing outside the allocation is written; non-trivial(pic) = format with subsampling or macropixel > 1, non-zero margins, and >= 2 accepted resizes on one handle incl. an extension. "
           "sound: sample size 1-8 x 1-8 planes x align 0/1/16/32/64 x two managers (ubuf_sound_mem_mgr_alloc / from flow def) x <=40 operations: alloc, plane_read/write windows, "
